@@ -222,6 +222,36 @@ func c15CheckFeatures(in c15Rec, o c15Out, mustKeep bool, what string) string {
 	return ""
 }
 
+// c15SingleRegionCovers: some located region (after merging, a contiguous stretch) contains every residue of f,
+// which is when Erase must drop it whatever the order of the single deletions.
+func c15SingleRegionCovers(rr []gts.Region, f gts.Feature) bool {
+	covered := make([]bool, len(c15Labels)+1)
+	for _, r := range rr {
+		for _, a := range regionAtoms(r) {
+			covered[a.pos] = true
+		}
+	}
+	d := denOf(f.Loc).Bases()
+	if len(d) == 0 {
+		return false
+	}
+	lo, hi := d[0].Pos, d[0].Pos
+	for _, a := range d {
+		if a.Pos < lo {
+			lo = a.Pos
+		}
+		if a.Pos > hi {
+			hi = a.Pos
+		}
+	}
+	for p := lo; p <= hi; p++ {
+		if !covered[p] {
+			return false
+		}
+	}
+	return true
+}
+
 func has(opts []string, o string) bool {
 	for _, x := range opts {
 		if x == o {
@@ -280,7 +310,24 @@ func c15Eval(c c15Case) (ok bool, sig, detail string) {
 	var cleanup func()
 	switch c.Cmd {
 	case "insert":
-		args = append(args, c.Locs[0], "@"+c15Guest)
+		if has(c.Opts, "GUESTFILE") {
+			dir, _ := os.MkdirTemp("", "verif-c15-")
+			cleanup = func() { os.RemoveAll(dir) }
+			gp := filepath.Join(dir, "guest.gb")
+			g := seqio.GenBank{Fields: seqio.GenBankFields{LocusName: "G", Molecule: gts.DNA, Topology: gts.Linear, Date: seqio.Date{Year: 2001, Month: 1, Day: 1}, Definition: "g", Accession: "G", Version: "G.1"},
+				Table:  gts.FeatureSlice{c15Feature("gf", "misc_feature", gts.Range(0, 2))},
+				Origin: seqio.NewOrigin([]byte(c15Guest))}
+			os.WriteFile(gp, []byte(g.String()), 0o644)
+			var o2 []string
+			for _, o := range c.Opts {
+				if o != "GUESTFILE" {
+					o2 = append(o2, o)
+				}
+			}
+			args = append(append(args[:2:2], o2...), c.Locs[0], gp)
+		} else {
+			args = append(args, c.Locs[0], "@"+c15Guest)
+		}
 	case "infix":
 		// roles swapped: the records are the host file, the guest comes on stdin
 		dir, _ := os.MkdirTemp("", "verif-c15-")
@@ -350,6 +397,27 @@ func c15Eval(c c15Case) (ok bool, sig, detail string) {
 			if msg := c15CheckFeatures(in, o, false, w); msg != "" {
 				return false, "feature-denotation", msg
 			}
+			if o.isGB {
+				present := map[string]int{}
+				for _, f := range o.feats {
+					present[noteOf(f)]++
+				}
+				for _, f := range in.feats {
+					l, _ := featLabels(f, []byte(c15Labels))
+					left := restrictTo(l, o.labels)
+					id := noteOf(f)
+					switch {
+					case has(c.Opts, "-e") && left == "" && l != "" && f.Key != "source" && len(rr) > 0 && c15SingleRegionCovers(rr, f):
+						if present[id] != 0 {
+							return false, "erase-keeps-feature", w + fmt.Sprintf(": feature %s lies wholly inside a deleted region but is still in the output of delete -e", id)
+						}
+					case !has(c.Opts, "-e"):
+						if present[id] != 1 {
+							return false, "delete-loses-feature", w + fmt.Sprintf(": feature %s appears %d times in the output of a plain delete (features are kept, collapsed if need be)", id, present[id])
+						}
+					}
+				}
+			}
 		case "insert", "infix":
 			heads := make([]int, len(rr))
 			for j, r := range rr {
@@ -370,9 +438,24 @@ func c15Eval(c c15Case) (ok bool, sig, detail string) {
 			if msg := c15CheckFeatures(in, o, true, w); msg != "" {
 				return false, "feature-denotation", msg
 			}
+			if has(c.Opts, "GUESTFILE") && o.isGB {
+				// one copy of the guest feature per located region, each denoting exactly the guest residues
+				n := 0
+				for _, f := range o.feats {
+					if noteOf(f) == "gf" {
+						n++
+						if got, _ := featLabels(f, []byte(o.labels)); got != c15Guest {
+							return false, "guest-feature", w + fmt.Sprintf(": a guest feature denotes %q in the output, want %q", got, c15Guest)
+						}
+					}
+				}
+				if n != len(rr) {
+					return false, "guest-feature", w + fmt.Sprintf(": %d copies of the guest feature for %d located regions", n, len(rr))
+				}
+			}
 			if !has(c.Opts, "-e") && o.isGB {
 				for _, f := range o.feats {
-					if got, _ := featLabels(f, []byte(o.labels)); noteOf(f) != "" && strings.ContainsAny(got, c15Guest) {
+					if got, _ := featLabels(f, []byte(o.labels)); noteOf(f) != "" && noteOf(f) != "gf" && strings.ContainsAny(got, c15Guest) {
 						return false, "feature-denotation", w + fmt.Sprintf(": after a plain insert feature %s covers guest residues (%q)", noteOf(f), got)
 					}
 				}
@@ -654,7 +737,7 @@ func init() {
 				cmd  string
 				opts []string
 			}
-			cmds := []cmdSpec{{"delete", nil}, {"delete", []string{"-e"}}, {"insert", nil}, {"insert", []string{"-e"}}, {"infix", nil}, {"infix", []string{"-e"}},
+			cmds := []cmdSpec{{"delete", nil}, {"delete", []string{"-e"}}, {"insert", nil}, {"insert", []string{"-e"}}, {"insert", []string{"GUESTFILE"}}, {"insert", []string{"-e", "GUESTFILE"}}, {"infix", nil}, {"infix", []string{"-e"}},
 				{"split", nil}, {"rotate", nil}, {"extract", nil}, {"extract", []string{"-v"}},
 				{"delete", []string{"-F", "fasta"}}, {"insert", []string{"-F", "fasta"}}, {"split", []string{"-F", "fasta"}}, {"extract", []string{"-F", "fasta"}}, {"extract", []string{"-v", "-F", "fasta"}}, {"rotate", []string{"-F", "fasta"}}}
 			var cases []c15Case
